@@ -14,6 +14,18 @@ CLAIMED = {
             "Random, valid (incl. non-canonical, mixed-epoch, invalid UTF-8) and mutated/truncated byte strings, bare and wrapped in vectors/structs/enums; full decode, split-off, len+skip, unknown field/variant capture and kind() compared with the reference decoder in strict and skip mode; panics caught, allocations bounded by a counting allocator.",
             "Trusts refcodec (strict/skip modes) and the allocation bound 64 KiB + 512*len; out-of-bounds reads only visible through the sanitizer fuzz target.",
             "property-based testing + differential oracle against a reference decoder; libFuzzer target value_diff in the thorough tier", "5 C07"),
+    "C08": ("codec", "exploration",
+            "Messages of all 63 kinds built from generated fields (every enum alternative, id/serial boundaries, generated payloads) and arbitrary/mutated frames; serializer output must be exactly the format's layout as stated by a table-driven reference frame codec, parsing must accept exactly the well-formed frames, fields must agree and re-serialisation must be closed; upstream's 127 golden vectors pin the reference on every run.",
+            "Trusts harness/codec/src/refmsg.rs (layout table) as the statement of the frame format, pinned to the golden byte vectors in /repo/core/src/message/*.rs.",
+            "property-based testing + differential oracle against a table-driven reference frame codec; round-trip", "5 C08"),
+    "C13": ("codec", "exploration",
+            "Well-formed values in either/mixed epoch (non-canonical forms, duplicates, invalid UTF-8, depth up to 32 with a new-epoch container at the bottom) and malformed bytes x version pairs in and around 1.14..1.20 x three entry points; output judged by the reference decoder: well-formed, same meaning, no kind >= 43, unchanged/borrowed for same-or-newer epoch, idempotent, entry points agree, never panics.",
+            "Trusts refcodec for well-formedness and meaning; expects InvalidVersion for versions outside 1.14..1.20.",
+            "property-based testing: metamorphic/differential oracle (reference decode of the converted bytes)", "5 C13"),
+    "C14": ("codec", "exploration",
+            "Frame sequences (5 B .. 200 KiB) fed to the Packetizer through both input interfaces in generated pieces with draining at generated points; TokioTransport and Buffered over a scripted AsyncRead+AsyncWrite whose every result is generated (short/zero/pending/EOF/error); invariants: frames out = frames in, none early/late, written bytes always a prefix, flush Ok only after everything was written and flushed, EOF and zero-length writes are errors.",
+            "Trusts the scripted I/O object to honour the AsyncRead/AsyncWrite contracts; only poll-level schedules of one transport are explored.",
+            "property-based testing: model-based (stream prefix invariants) with scripted fault/short-IO injection", "5 C14"),
 }
 
 NOT_YET = {}
